@@ -702,6 +702,9 @@ theorem datetime_minutes_roundtrip {fl : ℚ → ℚ} (hfl : RoundingModel fl) (
   refine Rel.round_eq b2 (lt_of_le_of_lt ?_ E7_bound)
   exact mul_le_mul_of_nonneg_left hmq (E_nonneg 7)
 
+/-- **T18.4** a stamp that is a whole number `m` of minutes from the reference (`cnt = refc + m * upm`,
+`upm` counts per minute, `|m| ≤ 10¹²`) survives `nondim_time_to_datetime64 ∘ datetime64_to_nondim_time`.
+Any other stamp is rounded to whole minutes *from the reference*: `datetime_roundtrip_off_minute`. -/
 theorem datetime_roundtrip {fl : ℚ → ℚ} (hfl : RoundingModel fl) (T : ℚ) (hT : T ≠ 0)
     (upm : ℕ) (hupm : 0 < upm) (refc m : ℤ) (hb : |m| ≤ 10 ^ 12) :
     dtRoundtrip fl T upm refc (refc + m * upm) = refc + m * upm := by
